@@ -22,7 +22,8 @@ func init() {
 			"D4 no constructor fills a queue it created with a capacity independent of the number of values (C05 D2 instance); " +
 			"D5 in each constructor every argument-kind variable set by the type switch is tested by exactly one arm of the final switch, that arm passes that very variable to the class constructor, the notation reaches the class accessor, and an arm may exclude the empty value of its kind (len(x) > 0) only where the default arm builds the same empty collection." +
 			" Also: D5 is stated on positive evidence (an arm uses the kind it tests; an excluded empty value does not meet a failing default; no recognised kind is ignored; nothing is computed from an argument seen earlier; a collection built from one argument is not replaced by one built without it); an element operation applied by a helper in the source branch yields the parser's order; an ordered kind is not rebuilt from a Go map in its source branch; queues and stacks are not filled past their capacity." +
-			" Round 7: a comma-ok assertion does not assign straight into a variable that collects one kind of argument over the rounds of the loop; class constructors the universal constructor delegates to start list and token channel in agreement.",
+			" Round 7: a comma-ok assertion does not assign straight into a variable that collects one kind of argument over the rounds of the loop; class constructors the universal constructor delegates to start list and token channel in agreement." +
+			" Rounds 8-9: a ranged Go map is not read back by key; value-receiver methods of private structs write no field.",
 		NotDecided: "equality of contents between facade and class constructors for generated data; element conversion failures (.(V) on parsed values); behaviour for several arguments of the same kind.",
 		Run:        runC20,
 	})
